@@ -423,6 +423,102 @@ impl<B: MkBuf> System for RingScript<B> {
     fn finish(self, _out: &mut StepOut) {}
 }
 
+// ------------------------------------------------- the largest built-in backing array
+/// `[T; 65536]` is the largest array size the crate implements `RealArray` for. One scripted
+/// history (fill to the brim, rotate, drain, refill half) with O(1) checks per step against a
+/// VecDeque reference: len / is_empty / can_push after every operation, FIFO order of every pop.
+pub struct BigRing {
+    done: bool,
+}
+#[derive(Clone, Copy, Debug, PartialEq)]
+pub enum BigRingOp {
+    Run,
+}
+impl System for BigRing {
+    type Op = BigRingOp;
+    fn new(_cfg: &Cfg) -> Self {
+        BigRing { done: false }
+    }
+    fn enabled(&self) -> Vec<BigRingOp> {
+        if self.done {
+            vec![]
+        } else {
+            vec![BigRingOp::Run]
+        }
+    }
+    fn apply(&mut self, _op: BigRingOp, out: &mut StepOut) {
+        self.done = true;
+        const N: usize = 65536;
+        let mut buf: Box<ArrayBuf<u32, [u32; N]>> = Box::new(ArrayBuf::new());
+        let mut reference: VecDeque<u32> = VecDeque::with_capacity(N);
+        let mut next = 0u32;
+        let mut step = 0usize;
+        macro_rules! check {
+            () => {{
+                step += 1;
+                if step % 4096 == 0 {
+                    crate::core::heartbeat();
+                }
+                let (len, empty, can, cap) = (buf.len(), buf.is_empty(), buf.can_push(), buf.capacity());
+                if len != reference.len() || empty != reference.is_empty() || can != (reference.len() < N) || cap != N {
+                    out.v("C19", "len", format!("[T; 65536] after {} operations: len()={} is_empty()={} can_push()={} capacity()={}, but {} elements are stored", step, len, empty, can, cap, reference.len()));
+                    return;
+                }
+            }};
+        }
+        macro_rules! push {
+            () => {{
+                if let Err(p) = lib(|| buf.push(next)) {
+                    out.v("C19", "panic", format!("push number {} panicked: {}", step + 1, p));
+                    return;
+                }
+                reference.push_back(next);
+                next += 1;
+                check!();
+            }};
+        }
+        macro_rules! pop {
+            () => {{
+                match lib(|| buf.pop()) {
+                    Ok(x) => {
+                        let want = reference.pop_front();
+                        if Some(x) != want {
+                            out.v("C19", "fifo-order", format!("[T; 65536]: pop() returned {}, insertion order says {:?}", x, want));
+                            return;
+                        }
+                    }
+                    Err(p) => {
+                        out.v("C19", "panic", format!("pop() panicked although the buffer is not empty: {}", p));
+                        return;
+                    }
+                }
+                check!();
+            }};
+        }
+        for _ in 0..N {
+            push!();
+        }
+        for _ in 0..1000 {
+            pop!();
+        }
+        for _ in 0..1000 {
+            push!();
+        }
+        for _ in 0..N {
+            pop!();
+        }
+        for _ in 0..N / 2 {
+            push!();
+        }
+        let _ = harness::take_alloc_counts();
+        out.o("ok");
+    }
+    fn fingerprint(&self) -> Vec<u8> {
+        vec![self.done as u8]
+    }
+    fn finish(self, _out: &mut StepOut) {}
+}
+
 // ------------------------------------------------------------------- list
 
 #[derive(Clone, Copy, Debug, PartialEq)]
